@@ -8,6 +8,7 @@ import (
 	"fmt"
 	"os"
 	"sort"
+	"sync"
 	"time"
 
 	"github.com/LiskHQ/lisk-engine/pkg/codec"
@@ -17,19 +18,36 @@ import (
 	"verif/vlib"
 )
 
-type memDB struct{ m map[string][]byte }
+// memDB is the node store handed to the trie. Update writes to it from several goroutines at once (the engine's
+// own store, db.Batch, is mutex protected), so it locks.
+type memDB struct {
+	mu sync.Mutex
+	m  map[string][]byte
+}
 
 func newMem() *memDB { return &memDB{m: map[string][]byte{}} }
 func (d *memDB) Get(k []byte) ([]byte, bool) {
+	d.mu.Lock()
+	defer d.mu.Unlock()
 	v, ok := d.m[string(k)]
 	if !ok {
 		return nil, false
 	}
 	return append([]byte{}, v...), true
 }
-func (d *memDB) Set(k, v []byte) { d.m[string(k)] = append([]byte{}, v...) }
-func (d *memDB) Del(k []byte)    { delete(d.m, string(k)) }
+func (d *memDB) Set(k, v []byte) {
+	d.mu.Lock()
+	defer d.mu.Unlock()
+	d.m[string(k)] = append([]byte{}, v...)
+}
+func (d *memDB) Del(k []byte) {
+	d.mu.Lock()
+	defer d.mu.Unlock()
+	delete(d.m, string(k))
+}
 func (d *memDB) clone() *memDB {
+	d.mu.Lock()
+	defer d.mu.Unlock()
 	c := newMem()
 	for k, v := range d.m {
 		c.m[k] = v
